@@ -67,6 +67,10 @@ CHECKS = [
         "Memory-safety / undefined-behaviour half, per function under contract: the union of the bounds, pointer, pointer-overflow, signed-overflow, conversion, shift, division-by-zero, frame (assigns/frees) and unwinding obligations of EVERY obligation group of every property (each function listed in the evidence, with the bound of its host group).",
         NOTE + "Not decided: safety of functions not under contract (simplex, pricing, LU, presolve, writers, most of the readers), uninitialised-value flow through them, whole call sequences beyond what the well-formedness preconditions carry, and bit-identical reproducibility across processes (a property of two executions).",
         TECH, "DESIGN.md 4/C17"),
+    chk("C18", "other",
+        "Bounded contract checks of object life cycles with CBMC's memory-leak check and a GMP model in which every initialised number owns a heap token: error memory create/add/free, solution cache alloc/free, basis alloc/export/free, QSread_and_load_basis on a problem that owns a basis, QSexact_basis_status discarding the stale cache (loop-free, callees stubbed), the output stream of QSwrite_prob closed exactly once, QSwrite_basis frees only its local conversion. Allocation failure is explored (malloc may return NULL).",
+        NOTE + "Not decided: leaks inside functions not listed in the evidence (QScreate_prob/QSfree_prob over a populated problem, readers' parse-error paths, simplex, LU), the EGlib slab pool, GMP's own allocator.",
+        TECH, "DESIGN.md 4/C18"),
     chk("C20", "proof",
         "QSlogv contract (handler installed => handler called exactly once with the complete message, no fprintf/perror on a returning path; symbolic message length), QSwrite_prob (stdout only on request, open failure is an error), non-interactive reader never prompts; plus a static enumeration over the goto binaries of ALL library translation units (3 instantiations): every call site of a libc writer and every mention of stdout/stderr must be an audited site whose justification obligation holds.",
         NOTE + "Not decided: the sites audited as 'assumed' (debug printers behind TRACE-guarded calls are checked for the guard; console editor output; EGioClose pointer comparison); writes through streams the host itself passes in.",
@@ -81,4 +85,4 @@ NOT_APPLICABLE = [
     {"property_id": "C09", "reason": "same as C08 for the MPS format"},
     {"property_id": "C15", "reason": "relation between two solves of different inputs (2-safety); not a single-call contract"},
 ] + [{"property_id": p, "reason": _NYB} for p in
-     ["C18", "C19"]]
+     ["C19"]]
